@@ -1,5 +1,7 @@
 import FrappyProofs.Lemmas.ReqLoop
 import FrappyProofs.Lemmas.Codec
+import FrappyProofs.Lemmas.NoEol
+import FrappyProofs.Lemmas.Senders
 import FrappyModel.Generated.C07
 /-
 C07 — property theorems (nothing but property theorems and their non-vacuity examples).
@@ -22,6 +24,7 @@ def tables : Tables where
   helpLineAction := Generated.C07.helpLineAction
   handlerErrorClass := Generated.C07.handlerErrorClass
   errorClasses := Generated.C07.errorClasses
+  asyncActions := Generated.C07.asyncActions
 
 /-- what the theorems need of the constant tables -/
 structure TableFacts (T : Tables) : Prop where
@@ -32,6 +35,8 @@ structure TableFacts (T : Tables) : Prop where
 
 theorem generated_table_facts : TableFacts tables := ⟨by decide, by decide⟩
 
+theorem generated_table_noEol : TableNoEol tables := ⟨by decide, by decide, by decide⟩
+
 /-- no two requests share a reply action, and no request action is listed twice -/
 theorem request2reply_injective :
     (tables.request2reply.map Prod.fst).Nodup ∧ (tables.request2reply.map Prod.snd).Nodup := by decide
@@ -40,6 +45,12 @@ theorem request2reply_injective :
 theorem reply_actions_distinct :
     ∀ p ∈ (tables.identRequest, tables.identReply) :: tables.request2reply,
       (tables.errorPrefix.isPrefixOf p.2) = false ∧ isReplyAction tables p.2 = true := by decide
+
+/-- the generated list of non-reply actions is what the model and the dispatcher use: the event
+reply, the error event (`error_` + event reply), the log event and the help text line action -/
+theorem async_actions_generated :
+    tables.asyncActions = [tables.eventReply, tables.errorPrefix ++ tables.eventReply, tables.logEvent,
+      tables.helpLineAction] := by decide
 
 /-- the identification request is not in the table (it is treated separately), and the
 eleven `handle_*` names of the dispatcher are the nine table actions, `_ident` and `request` -/
@@ -367,13 +378,8 @@ end codec
 section whole
 variable {J : Type}
 
-/-- **lines_whole_partial** — sends are atomic appends (they happen under the connection's send lock), so
-the byte stream a peer receives, cut at its newlines, is exactly the sequence of frames sent — replies,
-help text lines and events of any number of senders in the order of their sends — provided no
-frame contains a newline of its own.  Missing for the full statement (`lines_whole_statement`): that
-the frames of `serve` contain no newline needs `EOL ∉` for the fields of every reply (true for fields
-cut out of a request line, assumed for what the dispatcher hands over); and the lock itself is not modelled. -/
-theorem lines_whole_partial (L : Lib J) (outs : List (Out J))
+/-- frames without a newline of their own, concatenated, are cut at the newlines into exactly these frames -/
+theorem lines_whole_of_noEol (L : Lib J) (outs : List (Out J))
     (h : ∀ o ∈ outs, EOL ∉ rstripSp (joined L o.msg)) :
     IsFraming (wire L outs).flatten (outs.map (fun o => rstripSp (joined L o.msg))) [] := by
   refine ⟨?_, ?_, by simp⟩
@@ -382,11 +388,93 @@ theorem lines_whole_partial (L : Lib J) (outs : List (Out J))
     obtain ⟨o, ho, rfl⟩ := List.mem_map.1 hl
     exact h o ho
 
-def lines_whole_statement : Prop :=
-  ∀ (J σ : Type) (T : Tables) (L : Lib J) (d : Disp σ J) (st : σ) (chunks : List Bytes),
-    LibLaws L → DispFits T L d →
+variable {σ : Type}
+
+/-- no frame the request loop sends contains a newline of its own: action and specifier of a reply are
+cut out of a request line (which has none) or come from a well-formed triple of the dispatcher,
+`json.dumps` emits none (`LibLaws.dumps_noEol`), the help line numbers are digits -/
+theorem frames_no_newline (T : Tables) (L : Lib J) (d : Disp σ J) (laws : LibLaws L) (tf : TableNoEol T)
+    (hd : DispFits T L d) (st : σ) (chunks : List Bytes) :
+    ∀ o ∈ (serve T L d [] st chunks).outs, EOL ∉ rstripSp (joined L o.msg) := by
+  intro o ho hmem
+  rw [(serve_eq_serveLines T L d chunks [] st).1] at ho
+  have hlines := (feedAll_isFraming chunks [] (by simp)).2.1
+  exact eol_serveLines T L d laws tf hd _ st hlines o ho (mem_rstripSp hmem)
+
+/-- **lines_whole**, one sender — what the handler thread sends for any stream and segmentation, cut at
+its newlines, is exactly the sequence of its frames -/
+theorem lines_whole_sequential (T : Tables) (L : Lib J) (d : Disp σ J) (laws : LibLaws L) (tf : TableNoEol T)
+    (hd : DispFits T L d) (st : σ) (chunks : List Bytes) :
     IsFraming (wire L (serve T L d [] st chunks).outs).flatten
-      ((serve T L d [] st chunks).outs.map (fun o => rstripSp (joined L o.msg))) []
+      ((serve T L d [] st chunks).outs.map (fun o => rstripSp (joined L o.msg))) [] :=
+  lines_whole_of_noEol L _ (frames_no_newline T L d laws tf hd st chunks)
+
+/-- a frame: a body without newline, then the newline -/
+def IsFrame (f : Bytes) : Prop := ∃ body, f = body ++ [EOL] ∧ EOL ∉ body
+
+theorem frames_flatten_isFraming : ∀ (done : List Bytes), (∀ f ∈ done, IsFrame f) →
+    ∃ bodies, done = bodies.map (· ++ [EOL]) ∧ IsFraming done.flatten bodies []
+  | [], _ => ⟨[], rfl, by simp [IsFraming]⟩
+  | f :: fs, h => by
+    obtain ⟨body, rfl, hb⟩ := h f (List.mem_cons_self ..)
+    obtain ⟨bodies, rfl, hfr⟩ := frames_flatten_isFraming fs (fun g hg => h g (List.mem_cons_of_mem _ hg))
+    refine ⟨body :: bodies, rfl, ?_⟩
+    obtain ⟨e, m, n⟩ := hfr
+    refine ⟨by simp, ?_, n⟩
+    intro l hl
+    rcases List.mem_cons.1 hl with rfl | hl
+    · exact hb
+    · exact m l hl
+
+/-- **lines_whole** — any number of senders on one connection, each doing `send_lock.acquire();
+sendall(frame); release()` with `sendall` writing the frame in pieces of any size, in any
+interleaving: sender 0 is the handler thread answering an arbitrary byte stream, the others send
+well-formed events.  Whenever nobody is inside `sendall`, what the peer has received is a
+concatenation of whole frames — cut at its newlines it is exactly the frames completed so far, and each
+of them is one of the senders' frames; while a sender is inside `sendall`, it is that followed by a
+part of one frame.  No line is split by another. -/
+theorem lines_whole (T : Tables) (L : Lib J) (d : Disp σ J) (laws : LibLaws L) (tf : TableNoEol T)
+    (hd : DispFits T L d) (st : σ) (chunks : List Bytes)
+    (others : Nat → List (Triple J)) (hothers : ∀ i, ∀ m ∈ others i, WFTriple L m)
+    (s : SockState)
+    (hreach : SendReach (sockInit (fun i => if i = 0 then wire L (serve T L d [] st chunks).outs
+                                              else (others i).map (encodeFrame L))) s) :
+    (∀ f ∈ s.done, IsFrame f) ∧
+    match s.lock with
+    | none => ∃ bodies, s.done = bodies.map (· ++ [EOL]) ∧ IsFraming s.out bodies []
+    | some i => ∃ w r, s.cur i = some (w, r) ∧ IsFrame (w ++ r) ∧ s.out = s.done.flatten ++ w := by
+  have hq : ∀ i, ∀ f ∈ (fun i => if i = 0 then wire L (serve T L d [] st chunks).outs
+      else (others i).map (encodeFrame L)) i, IsFrame f := by
+    intro i f hf
+    by_cases hi : i = 0
+    · simp only [hi, ↓reduceIte, wire, List.mem_map] at hf
+      obtain ⟨o, ho, rfl⟩ := hf
+      exact ⟨_, rfl, frames_no_newline T L d laws tf hd st chunks o ho⟩
+    · simp only [hi, ↓reduceIte, List.mem_map] at hf
+      obtain ⟨m, hm, rfl⟩ := hf
+      have hwf := hothers i m hm
+      refine ⟨_, rfl, fun h => ?_⟩
+      refine eol_joined L m hwf.1.2.2.1 ?_ (fun j _ => laws.dumps_noEol j) (mem_rstripSp h)
+      cases hs : m.spec with
+      | none => simp
+      | some sp => simpa using (hwf.2 sp hs).2.2.1
+  obtain ⟨_, hdone, hl⟩ := sendInv_reach IsFrame _ hq hreach
+  refine ⟨hdone, ?_⟩
+  cases hlock : s.lock with
+  | none =>
+    rw [hlock] at hl
+    obtain ⟨bodies, hb, hfr⟩ := frames_flatten_isFraming s.done hdone
+    exact ⟨bodies, hb, by rw [hl.2]; exact hfr⟩
+  | some i =>
+    rw [hlock] at hl
+    obtain ⟨_, w, r, hc, hp, hout⟩ := hl
+    exact ⟨w, r, hc, hp, hout⟩
+
+/-- non-vacuity of the step relation: two senders, the second acquires while the first has not
+started; a state with the lock held and half a frame written is reachable -/
+example : ∃ s, SendReach (sockInit (fun i => if i = 0 then [[97, 10]] else if i = 1 then [[98, 99, 10]] else [])) s
+    ∧ s.lock = some 1 ∧ s.out = [98] := by
+  refine ⟨_, .step _ _ (.step _ _ .start (.acquire _ 1 [98, 99, 10] [] rfl rfl)) (.write _ 1 [] [98, 99, 10] 1 (by simp [upd])), rfl, rfl⟩
 
 end whole
 
